@@ -137,7 +137,7 @@ theorem NoF.addAttribute (t : Target) (name : String) (v : Val) : NoF (Strict.ad
 
 theorem NoF.fromNodes (q : Quant) (nodes : List Nat) : NoF (Strict.fromNodes q nodes : Prog ρ Val) := by
   unfold Strict.fromNodes
-  cases q <;> (try cases nodes) <;> first | exact NoF.pure _ | exact NoF.panicAt _
+  cases q <;> (try cases nodes) <;> first | exact NoF.pure _ | exact NoF.panicAt _ | exact NoF.throwK _
 
 /-! ### the strict interpreter -/
 
